@@ -165,3 +165,284 @@ Proof.
   destruct (decide (c = a)) as [->|Hne]; [by destruct (Hno q j o Hj)|].
   exists x, q'. by rewrite list_lookup_alter_ne.
 Qed.
+
+(* ---------- finer lemmas about appended events ---------- *)
+Definition fin_ev (e : hevent) : bool := match e with Ret _ | RetBusy _ | RetPanic _ => true | _ => false end.
+Definition push_ev (e : hevent) : bool := match e with Push _ _ => true | _ => false end.
+Definition call_ev (e : hevent) : bool := match e with Call _ _ _ => true | _ => false end.
+Lemma not_finished_app' i h evs : ~ finished i h -> (forall e, e ∈ evs -> ev_id e = i -> fin_ev e = false) -> ~ finished i (h ++ evs).
+Proof.
+  intros Hn Hev [H|H]%finished_app; [done|].
+  destruct H as [H|[H|H]]; specialize (Hev _ H eq_refl); done.
+Qed.
+Lemma not_pushed_app' i h evs : i ∉ pushed_all h -> (forall e, e ∈ evs -> ev_id e = i -> push_ev e = false) -> i ∉ pushed_all (h ++ evs).
+Proof.
+  intros Hn Hev. rewrite pushed_all_app, elem_of_app. intros [H|H]; [done|].
+  apply elem_of_pushed_all in H as [q H]. specialize (Hev _ H eq_refl). done.
+Qed.
+Lemma call_app_inv' i q k h evs : Call i q k ∈ h ++ evs -> (forall e, e ∈ evs -> ev_id e = i -> call_ev e = false) -> Call i q k ∈ h.
+Proof. intros [H|H]%elem_of_app Hev; [done|]. specialize (Hev _ H eq_refl). done. Qed.
+Lemma pushed_all_l i h evs : i ∈ pushed_all h -> i ∈ pushed_all (h ++ evs).
+Proof. intros H. rewrite pushed_all_app. apply elem_of_app. by left. Qed.
+Lemma elem_of_fupd {A} q (x : list A) f q0 y : y ∈ fupd q x f q0 -> (q0 = q /\ y ∈ x) \/ (q0 <> q /\ y ∈ f q0).
+Proof. unfold fupd. case_decide; [by left|by right]. Qed.
+
+Lemma jobs_alter_keep' A P P' f a :
+  jobs_ok A P -> (forall q j, j ∈ P' q -> j ∈ P q \/ forall o c, ~ is_sjob j o c) ->
+  (forall x q, A !! a = Some x -> ph x = PWait q -> ph (f x) = ph x /\ aop (f x) = aop x) ->
+  jobs_ok (alter f a A) P'.
+Proof.
+  intros HJ Hsub Hf q j o c Hj Hs. destruct (Hsub _ _ Hj) as [Hj'|Hn]; [|by destruct (Hn o c)].
+  destruct (HJ q j o c Hj' Hs) as (x & q' & Hx & Ho & Hp).
+  destruct (decide (c = a)) as [->|Hne].
+  - destruct (Hf x q' Hx Hp) as [E1 E2]. exists (f x), q'. rewrite list_lookup_alter, Hx. cbn. split; [done|]. split; congruence.
+  - exists x, q'. by rewrite list_lookup_alter_ne.
+Qed.
+
+(* running a job *)
+Lemma arun_acts_inv j (A : list aactor) b y' : arun_acts j A !! b = Some y' ->
+  exists y, A !! b = Some y /\ ph y' = ph y /\ aop y' = aop y /\
+            ((ares y' = ares y /\ ardy y' = ardy y) \/ exists o, is_sjob j o b).
+Proof.
+  destruct j as [o|o c|o c]; cbn.
+  - intros H. exists y'. split; [done|]. repeat split; by left.
+  - intros [(-> & y & Hy & ->)|(Hne & Hb)]%lookup_alter_Some.
+    + exists y. split; [done|]. repeat split. right. exists o. by left.
+    + exists y'. split; [done|]. repeat split; by left.
+  - intros [(-> & y & Hy & ->)|(Hne & Hb)]%lookup_alter_Some.
+    + exists y. split; [done|]. repeat split. right. exists o. by right.
+    + exists y'. split; [done|]. repeat split; by left.
+Qed.
+Lemma arun_acts_fwd j (A : list aactor) b y : A !! b = Some y -> exists y', arun_acts j A !! b = Some y' /\ ph y' = ph y /\ aop y' = aop y.
+Proof.
+  intros Hb. destruct j as [o|o c|o c]; cbn; [eauto| |].
+  all: destruct (decide (c = b)) as [->|]; [rewrite list_lookup_alter, Hb; cbn; eauto|rewrite list_lookup_alter_ne by done; eauto].
+Qed.
+
+Lemma run_preserved v h q j js :
+  AInv v h -> v_pend v q = j :: js ->
+  (forall b y', arun_acts j (v_acts v) !! b = Some y' -> act_ok (v_next v) (job_id j :: v_ran v) (h ++ [Run (job_id j) q]) y') /\
+  uniq (arun_acts j (v_acts v)) /\ jobs_ok (arun_acts j (v_acts v)) (fupd q js (v_pend v)) /\
+  good (Run (job_id j) q) h /\ job_id j < v_next v /\
+  (forall q0, pushed (h ++ [Run (job_id j) q]) q0 = ranq (h ++ [Run (job_id j) q]) q0 ++ (job_id <$> fupd q js (v_pend v) q0)).
+Proof.
+  intros HI Hpe. pose proof HI as [I1 I2 I3 I4 I5 I6 I7].
+  assert (Hin : j ∈ v_pend v q) by (rewrite Hpe; by left).
+  pose proof (pend_pushed v h HI q j Hin) as Hpush.
+  pose proof (pend_not_ran v h HI q j Hin) as Hnr.
+  split; [|split; [|split; [|split; [|split]]]].
+  - intros b y' Hb. destruct (arun_acts_inv j _ b y' Hb) as (y & Hy & E1 & E2 & Hfl).
+    pose proof (I4 b y Hy) as Hok.
+    assert (Hm : act_ok (v_next v) (job_id j :: v_ran v) (h ++ [Run (job_id j) q]) y).
+    { eapply act_ok_mono; [exact Hok|done|by intros; right|]. intros _ e ->%elem_of_list_singleton. right. by eexists _, _. }
+    unfold act_ok in *. rewrite E1, E2. destruct (ph y) eqn:Ey; try done.
+    + destruct Hfl as [[-> ->]|(o & Hs)]; [done|]. exfalso. destruct (I6 q j o b Hin Hs) as (z & q' & Hz & _ & Hpz). congruence.
+    + destruct Hm as (M1 & M2 & M3 & M4). repeat split; try done. destruct Hfl as [[-> ->]|(o & Hs)]; [done|]. intros _.
+      destruct (I6 q j o b Hin Hs) as (z & q' & Hz & Ho & _). rewrite Hy in Hz. injection Hz as <-. rewrite Ho. apply elem_of_cons. left.
+      by destruct Hs as [-> | ->].
+  - intros b c y' z' Hb Hc Hy Hz Heq.
+    destruct (arun_acts_inv j _ b y' Hb) as (y & Hy0 & E1 & E2 & _). destruct (arun_acts_inv j _ c z' Hc) as (z & Hz0 & F1 & F2 & _).
+    eapply (I5 b c y z); try done; [unfold inop in *; by rewrite <- E1|unfold inop in *; by rewrite <- F1|congruence].
+  - intros q0 j' o c Hj' Hs.
+    assert (Hj0 : j' ∈ v_pend v q0).
+    { apply elem_of_fupd in Hj' as [[-> Hj']|[_ Hj']]; [|done]. rewrite Hpe. by right. }
+    destruct (I6 q0 j' o c Hj0 Hs) as (z & q' & Hz & Ho & Hpz).
+    destruct (arun_acts_fwd j _ c z Hz) as (z' & Hz' & G1 & G2). exists z', q'. split; [done|]. split; congruence.
+  - cbn. split; [done|]. rewrite I1. by rewrite elem_of_rev.
+  - apply (I3 _ Hpush).
+  - intros q0. rewrite pushed_app, ranq_app. cbn. rewrite app_nil_r. unfold fupd. destruct (decide (q = q0)) as [<-|Hne].
+    + rewrite decide_True by done. rewrite I2, Hpe. cbn. by rewrite <- app_assoc.
+    + rewrite decide_False by done. rewrite app_nil_r. apply I2.
+Qed.
+
+Lemma elem_of_snoc {A} (l : list A) x y : y ∈ l ++ [x] -> y ∈ l \/ y = x.
+Proof. intros [H|H%elem_of_list_singleton]%elem_of_app; auto. Qed.
+Lemma dend_events d i q e : e ∈ Push i q :: dend_ev d i -> ev_id e = i.
+Proof.
+  destruct d; cbn; intros H; repeat (apply elem_of_cons in H as [->|H]; [done|]); by apply elem_of_nil in H.
+Qed.
+Ltac ev1 := let e := fresh "e" in intros e ->%elem_of_list_singleton.
+
+(* ---------- every step of the abstract machine keeps the invariant ---------- *)
+Theorem astep_inv v a evs w h : AInv v h -> astep v a evs w -> AInv w (h ++ evs).
+Proof.
+  intros HI Hst. pose proof HI as [I1 I2 I3 I4 I5 I6 I7].
+  destruct Hst as [w Hv|w Hv|w x k q Ha Hp Hv|w x q d Ha Hp Hv|w x k q Ha Hp Hk Hpe Hv|w x q j Ha Hp Hj Hv|w x q js Ha Hp Hpe Hv
+                  |w q j js Hpe Hv|w x q Ha Hp Hfl Hv|w x Ha Hp Hv|w x q Ha Hp Hv|w x k q Ha Hp Hv];
+    (eapply AInv_veq; [exact Hv|]); clear Hv w.
+  - (* stutter *) by rewrite app_nil_r.
+  - (* spawn *)
+    rewrite app_nil_r. split; cbn [v_acts v_pend v_ran v_next]; try done.
+    + intros b y [Hb|[_ Hb]]%lookup_app_Some; [by eapply I4|]. destruct (b - _); [|done]. by injection Hb as <-.
+    + intros b c y z Hb Hc Hy Hz Heq.
+      apply lookup_app_Some in Hb as [Hb|[_ Hb]]; [|destruct (b - _); [|done]; by injection Hb as <-].
+      apply lookup_app_Some in Hc as [Hc|[_ Hc]]; [|destruct (c - _); [|done]; by injection Hc as <-].
+      by eapply (I5 b c y z).
+    + intros q j o c Hj Hs. destruct (I6 q j o c Hj Hs) as (x & q' & Hx & Hr). exists x, q'. split; [by apply lookup_app_l_Some|done].
+  - (* call *)
+    assert (Hlt : a < length (v_acts v)) by (by eapply lookup_lt_Some).
+    split; cbn [v_acts v_pend v_ran v_next].
+    + rewrite runs_app. cbn. by rewrite app_nil_r.
+    + intros q0. rewrite pushed_app, ranq_app. cbn. rewrite !app_nil_r. apply I2.
+    + intros e [He| ->]%elem_of_snoc; [specialize (I3 e He); lia|cbn; lia].
+    + intros b y' Hb. destruct (decide (a = b)) as [<-|Hne].
+      * rewrite list_lookup_insert in Hb by done. injection Hb as <-. unfold act_ok; cbn. repeat split; try done; [lia| | |].
+        -- apply not_finished_app'; [by eapply next_not_finished|]. by ev1.
+        -- apply elem_of_app. right. by left.
+        -- apply not_pushed_app'; [by eapply next_not_pushed|]. by ev1.
+      * rewrite list_lookup_insert_ne in Hb by done. eapply (others_ok v h HI a x b y'); try done; [lia|]. ev1. right; left. cbn. lia.
+    + intros b c y z Hb Hc Hy Hz Heq. destruct (decide (b = c)) as [|Hne]; [done|]. exfalso.
+      destruct (decide (a = b)) as [<-|Hab]; [|destruct (decide (a = c)) as [<-|Hac]].
+      * rewrite list_lookup_insert in Hb by done. injection Hb as <-. rewrite list_lookup_insert_ne in Hc by done.
+        destruct (act_ok_inop _ _ _ _ Hz (I4 c z Hc)) as [Hl _]. cbn in Heq. lia.
+      * rewrite list_lookup_insert in Hc by done. injection Hc as <-. rewrite list_lookup_insert_ne in Hb by done.
+        destruct (act_ok_inop _ _ _ _ Hy (I4 b y Hb)) as [Hl _]. cbn in Heq. lia.
+      * rewrite list_lookup_insert_ne in Hb, Hc by done. apply Hne. by eapply (I5 b c y z).
+    + intros q0 j o c Hj Hs. destruct (I6 q0 j o c Hj Hs) as (y & q' & Hy & Ho & Hph). exists y, q'. split; [|done].
+      rewrite list_lookup_insert_ne; [done|]. intros ->. rewrite Ha in Hy. injection Hy as ->. congruence.
+    + apply HGood_snoc; [done|]. exact I3.
+  - (* desync pushes its job *)
+    pose proof (I4 a x Ha) as Hx. unfold act_ok in Hx. rewrite Hp in Hx. destruct Hx as (X1 & X2 & X3 & X4 & X5 & X6).
+    assert (Hix : inop x) by (unfold inop; by rewrite Hp).
+    assert (Hev : forall e, e ∈ Push (aop x) q :: dend_ev d (aop x) -> (inop x /\ ev_id e = aop x) \/ v_next v <= ev_id e \/ is_run e).
+    { intros e He. left. split; [done|]. by eapply dend_events. }
+    assert (Hnf : ~ finished (aop x) (h ++ [Push (aop x) q])) by (apply not_finished_app'; [done|by ev1]).
+    assert (Hcall : forall q' k', Call (aop x) q' k' ∈ h ++ [Push (aop x) q] -> k' = KDesync).
+    { intros q' k' Hc. apply call_app_inv' in Hc; [|by ev1]. by destruct (hg_call_inj h I7 _ _ _ _ _ X3 Hc). }
+    split; cbn [v_acts v_pend v_ran v_next].
+    + rewrite runs_app. destruct d; cbn; by rewrite app_nil_r.
+    + intros q0. rewrite pushed_app, ranq_app. unfold fupd.
+      assert (E1 : ranq (Push (aop x) q :: dend_ev d (aop x)) q0 = []) by (by destruct d).
+      assert (E2 : pushed (Push (aop x) q :: dend_ev d (aop x)) q0 = if decide (q = q0) then [aop x] else []) by (destruct d; cbn; by case_decide).
+      rewrite E1, E2, app_nil_r. destruct (decide (q = q0)) as [<-|Hne].
+      * rewrite decide_True by done. rewrite fmap_app, I2. cbn. by rewrite app_assoc.
+      * rewrite decide_False by done. rewrite app_nil_r. apply I2.
+    + intros e [He|He]%elem_of_app; [by apply I3|]. by rewrite (dend_events _ _ _ _ He).
+    + eapply acts_step; [exact HI|exact Ha|lia|done|exact Hev|]. unfold act_ok. destruct d; cbn [set_ph dend_ph ph aop set]; try done.
+      cbn. repeat split; try done; [apply elem_of_pushed_all; exists q; apply elem_of_app; right; by left | ].
+      intros q' k' Hc Hk. by destruct (Hk (Hcall _ _ Hc)).
+    + apply uniq_alter; [done|]. intros y Hy _. rewrite Ha in Hy. injection Hy as <-. done.
+    + eapply jobs_alter_keep'; [exact I6| |].
+      * intros q0 j [[-> Hj]|[_ Hj]]%elem_of_fupd; [|by left]. apply elem_of_snoc in Hj as [Hj| ->]; [by left|].
+        right. intros o c [?|?]; done.
+      * intros y q' Hy Hq'. rewrite Ha in Hy. injection Hy as <-. congruence.
+    + assert (Hg1 : HGood (h ++ [Push (aop x) q])).
+      { apply HGood_snoc; [done|]. cbn. split; [by exists KDesync|done]. }
+      destruct d; cbn [dend_ev]; [done| |].
+      * change (h ++ [Push (aop x) q; Ret (aop x)]) with (h ++ [Push (aop x) q] ++ [Ret (aop x)]). rewrite app_assoc.
+        apply HGood_snoc; [done|]. cbn. split; [|split; [|done]].
+        -- apply elem_of_pushed_all. exists q. apply elem_of_app. right. by left.
+        -- intros q' k' Hc Hk. by destruct (Hk (Hcall _ _ Hc)).
+      * change (h ++ [Push (aop x) q; RetPanic (aop x)]) with (h ++ [Push (aop x) q] ++ [RetPanic (aop x)]). rewrite app_assoc.
+        apply HGood_snoc; [done|]. done.
+  - (* push-and-take of an immediate sync *)
+    pose proof (I4 a x Ha) as Hx. unfold act_ok in Hx. rewrite Hp in Hx. destruct Hx as (X1 & X2 & X3 & X4 & X5 & X6).
+    assert (Hix : inop x) by (unfold inop; by rewrite Hp).
+    assert (Hev : forall e, e ∈ [Push (aop x) q] -> (inop x /\ ev_id e = aop x) \/ v_next v <= ev_id e \/ is_run e) by (ev1; by left).
+    split; cbn [v_acts v_pend v_ran v_next].
+    + rewrite runs_app. cbn. by rewrite app_nil_r.
+    + intros q0. rewrite pushed_app, ranq_app. cbn. rewrite app_nil_r. unfold fupd. destruct (decide (q = q0)) as [<-|Hne].
+      * rewrite decide_True by done. rewrite I2, Hpe. cbn. done.
+      * rewrite decide_False by done. rewrite app_nil_r. apply I2.
+    + intros e [He| ->]%elem_of_snoc; [by apply I3|done].
+    + eapply acts_step; [exact HI|exact Ha|lia|done|exact Hev|]. unfold act_ok. cbn. repeat split; try done.
+      * apply not_finished_app'; [done|by ev1].
+      * apply elem_of_pushed_all. exists q. apply elem_of_app. right. by left.
+    + apply uniq_alter; [done|]. intros y Hy _. rewrite Ha in Hy. injection Hy as <-. done.
+    + eapply jobs_alter_keep'; [exact I6| |].
+      * intros q0 j [[-> Hj]|[_ Hj]]%elem_of_fupd; [|by left]. apply elem_of_list_singleton in Hj as ->. right. intros o c [?|?]; done.
+      * intros y q' Hy Hq'. rewrite Ha in Hy. injection Hy as <-. congruence.
+    + apply HGood_snoc; [done|]. cbn. split; [by exists k|done].
+  - (* a sync pushes its job *)
+    pose proof (I4 a x Ha) as Hx. unfold act_ok in Hx. rewrite Hp in Hx. destruct Hx as (X1 & X2 & X3 & X4 & X5 & X6).
+    assert (Hix : inop x) by (unfold inop; by rewrite Hp).
+    assert (Hev : forall e, e ∈ [Push (aop x) q] -> (inop x /\ ev_id e = aop x) \/ v_next v <= ev_id e \/ is_run e) by (ev1; by left).
+    assert (Hjid : job_id j = aop x) by (by destruct Hj as [-> | ->]).
+    split; cbn [v_acts v_pend v_ran v_next].
+    + rewrite runs_app. cbn. by rewrite app_nil_r.
+    + intros q0. rewrite pushed_app, ranq_app. cbn. rewrite app_nil_r. unfold fupd. destruct (decide (q = q0)) as [<-|Hne].
+      * rewrite decide_True by done. rewrite fmap_app, I2. cbn. by rewrite Hjid, app_assoc.
+      * rewrite decide_False by done. rewrite app_nil_r. apply I2.
+    + intros e [He| ->]%elem_of_snoc; [by apply I3|done].
+    + eapply acts_step; [exact HI|exact Ha|lia|done|exact Hev|]. unfold act_ok. cbn. repeat split; try done.
+      * apply not_finished_app'; [done|by ev1].
+      * apply elem_of_pushed_all. exists q. apply elem_of_app. right. by left.
+      * rewrite X5, X6. by intros [?|?].
+    + apply uniq_alter; [done|]. intros y Hy _. rewrite Ha in Hy. injection Hy as <-. done.
+    + intros q0 j' o c Hj' Hs. apply elem_of_fupd in Hj' as [[-> Hj']|[_ Hj']].
+      * apply elem_of_snoc in Hj' as [Hj'| ->].
+        -- destruct (I6 q j' o c Hj' Hs) as (y & q' & Hy & Ho & Hph). exists y, q'. split; [|done].
+           rewrite list_lookup_alter_ne; [done|]. intros ->. rewrite Ha in Hy. injection Hy as ->. congruence.
+        -- assert (c = a /\ o = aop x) as [-> ->] by (destruct Hj as [-> | ->], Hs as [Hs|Hs]; by injection Hs).
+           exists (set_ph (PWait q) x), q. by rewrite list_lookup_alter, Ha.
+      * destruct (I6 q0 j' o c Hj' Hs) as (y & q' & Hy & Ho & Hph). exists y, q'. split; [|done].
+        rewrite list_lookup_alter_ne; [done|]. intros ->. rewrite Ha in Hy. injection Hy as ->. congruence.
+    + apply HGood_snoc; [done|]. cbn. split; [by exists KSync|done].
+  - (* the immediate closure runs *)
+    destruct (run_preserved v h q (JPlain (aop x)) js HI Hpe) as (R1 & R2 & R3 & R4 & R5 & R6). cbn [arun_acts job_id] in *.
+    pose proof (I4 a x Ha) as Hx. unfold act_ok in Hx. rewrite Hp in Hx. destruct Hx as (X1 & X2 & X3).
+    split; cbn [v_acts v_pend v_ran v_next].
+    + rewrite runs_app, I1. done.
+    + exact R6.
+    + intros e [He| ->]%elem_of_snoc; [by apply I3|done].
+    + intros b y' [(-> & y & Hy & ->)|(Hne & Hb)]%lookup_alter_Some; [|by apply R1].
+      rewrite Ha in Hy. injection Hy as <-. unfold act_ok. cbn. repeat split; try done.
+      * apply not_finished_app'; [done|by ev1].
+      * by apply pushed_all_l.
+      * intros. by left.
+    + apply uniq_alter; [done|]. intros y Hy _. rewrite Ha in Hy. injection Hy as <-. split; [|done]. unfold inop. by rewrite Hp.
+    + eapply jobs_alter_keep'; [exact R3|by left|]. intros y q' Hy Hq'. rewrite Ha in Hy. injection Hy as <-. congruence.
+    + by apply HGood_snoc.
+  - (* a queued job runs *)
+    destruct (run_preserved v h q j js HI Hpe) as (R1 & R2 & R3 & R4 & R5 & R6).
+    split; cbn [v_acts v_pend v_ran v_next]; try done.
+    + rewrite runs_app, I1. done.
+    + intros e [He| ->]%elem_of_snoc; [by apply I3|done].
+    + by apply HGood_snoc.
+  - (* a sync call sees its result *)
+    pose proof (I4 a x Ha) as Hx. unfold act_ok in Hx. rewrite Hp in Hx. destruct Hx as (X1 & X2 & X3 & X4).
+    rewrite app_nil_r. split; cbn [v_acts v_pend v_ran v_next]; try done.
+    + intros b y' Hb. rewrite <- (app_nil_r h). eapply acts_step; [exact HI|exact Ha|lia|done| | |exact Hb].
+      * intros e He. by apply elem_of_nil in He.
+      * rewrite app_nil_r. unfold act_ok. cbn. repeat split; try done. intros _ _ _ _. by apply X4.
+    + apply uniq_alter; [done|]. intros y Hy _. rewrite Ha in Hy. injection Hy as <-. split; [|done]. unfold inop. by rewrite Hp.
+    + eapply jobs_alter_nocaller; [exact I6|done|]. intros q0 j o Hj Hs.
+      destruct (I6 q0 j o a Hj Hs) as (y & q' & Hy & Ho & _). rewrite Ha in Hy. injection Hy as <-.
+      apply (pend_not_ran v h HI q0 j Hj). assert (job_id j = o) as -> by (by destruct Hs as [-> | ->]). rewrite <- Ho. by apply X4.
+  - (* the call returns *)
+    pose proof (I4 a x Ha) as Hx. unfold act_ok in Hx. rewrite Hp in Hx. destruct Hx as (X1 & X2 & X3 & X4).
+    assert (Hix : inop x) by (unfold inop; by rewrite Hp).
+    assert (Hev : forall e, e ∈ [Ret (aop x)] -> (inop x /\ ev_id e = aop x) \/ v_next v <= ev_id e \/ is_run e) by (ev1; by left).
+    split; cbn [v_acts v_pend v_ran v_next].
+    + rewrite runs_app. cbn. by rewrite app_nil_r.
+    + intros q0. rewrite pushed_app, ranq_app. cbn. rewrite !app_nil_r. apply I2.
+    + intros e [He| ->]%elem_of_snoc; [by apply I3|done].
+    + eapply acts_step; [exact HI|exact Ha|lia|done|exact Hev|]. done.
+    + apply uniq_alter; [done|]. intros y Hy Hi. done.
+    + eapply jobs_alter_keep'; [exact I6|by left|]. intros y q' Hy Hq'. rewrite Ha in Hy. injection Hy as <-. congruence.
+    + apply HGood_snoc; [done|]. cbn. split; [done|]. split; [|done]. intros q k Hc Hk. rewrite I1, elem_of_rev. by eapply X4.
+  - (* try_sync: busy *)
+    pose proof (I4 a x Ha) as Hx. unfold act_ok in Hx. rewrite Hp in Hx. destruct Hx as (X1 & X2 & X3 & X4 & X5 & X6).
+    assert (Hix : inop x) by (unfold inop; by rewrite Hp).
+    assert (Hev : forall e, e ∈ [RetBusy (aop x)] -> (inop x /\ ev_id e = aop x) \/ v_next v <= ev_id e \/ is_run e) by (ev1; by left).
+    split; cbn [v_acts v_pend v_ran v_next].
+    + rewrite runs_app. cbn. by rewrite app_nil_r.
+    + intros q0. rewrite pushed_app, ranq_app. cbn. rewrite !app_nil_r. apply I2.
+    + intros e [He| ->]%elem_of_snoc; [by apply I3|done].
+    + eapply acts_step; [exact HI|exact Ha|lia|done|exact Hev|]. done.
+    + apply uniq_alter; [done|]. intros y Hy Hi. done.
+    + eapply jobs_alter_keep'; [exact I6|by left|]. intros y q' Hy Hq'. rewrite Ha in Hy. injection Hy as <-. congruence.
+    + apply HGood_snoc; [done|]. cbn. split; [by exists q|done].
+  - (* the call panics *)
+    pose proof (I4 a x Ha) as Hx. unfold act_ok in Hx. rewrite Hp in Hx. destruct Hx as (X1 & X2 & X3 & X4 & X5 & X6).
+    assert (Hix : inop x) by (unfold inop; by rewrite Hp).
+    assert (Hev : forall e, e ∈ [RetPanic (aop x)] -> (inop x /\ ev_id e = aop x) \/ v_next v <= ev_id e \/ is_run e) by (ev1; by left).
+    split; cbn [v_acts v_pend v_ran v_next].
+    + rewrite runs_app. cbn. by rewrite app_nil_r.
+    + intros q0. rewrite pushed_app, ranq_app. cbn. rewrite !app_nil_r. apply I2.
+    + intros e [He| ->]%elem_of_snoc; [by apply I3|done].
+    + eapply acts_step; [exact HI|exact Ha|lia|done|exact Hev|]. done.
+    + apply uniq_alter; [done|]. intros y Hy Hi. done.
+    + eapply jobs_alter_keep'; [exact I6|by left|]. intros y q' Hy Hq'. rewrite Ha in Hy. injection Hy as <-. congruence.
+    + apply HGood_snoc; [done|]. done.
+Qed.
